@@ -187,7 +187,7 @@ class Gen:
             g = r.choice([x for x in b.groups if ooo or x == 0 or x >= sg or b.updates[b.group_update[x] - 1].committed])
             parents_rel, parents_abs = [], []
             earlier_in = list(range(1, rel))
-            earlier_abs = [j for j in b.jobs if j < sj and (b.jobs[j].inserted or r.random() < p['p_dangling_parent'])]
+            earlier_abs = [j for j in b.jobs if j < sj and ((b.jobs[j].inserted and b.updates[b.jobs[j].upd - 1].committed) or r.random() < p['p_dangling_parent'])]
             if earlier_in and r.random() < 0.5:
                 parents_rel = sorted(r.sample(earlier_in, r.randint(1, min(2, len(earlier_in)))))
             if earlier_abs and r.random() < 0.5:
